@@ -426,6 +426,7 @@ func runC03(c *kit.Ctx) {
 	// ---- R6 ---------------------------------------------------------------
 	c.StartRule("R6", "reader errors are connection failures", 6)
 	readerErrorsAreFatal(c, recv)
+	decodeErrorsKeepTheConnection(c)
 	// direct completions in receive (outside the deferred one) happen on connection failures:
 	// they and the error returned with them must be of the connection-level class
 	for _, call := range kit.Calls(recv, kit.M("region", "", "returnResult")) {
@@ -470,6 +471,7 @@ func runC03(c *kit.Ctx) {
 	}
 
 	writeErrorIsFatal(c, send)
+	lockPairing(c, "/gohbase/region")
 	counterAndDeadlineUnderOneLock(c, kit.NewLockEnv(p))
 
 	// ---- R7 ---------------------------------------------------------------
@@ -727,6 +729,10 @@ func failureTransition(c *kit.Ctx) {
 		c.Check(okOrder, lit, "transition-order", lit.Pos(), "close(done), then conn.Close(), then the drain of the sent table", "the failure transition drains the sent table before the connection is closed (or signals after closing): a call registered in between is written to a live socket of a dead client and never completed")
 		c.Check(hasClose, lit, "conn-close", lit.Pos(), "the transition closes the connection", "the failure transition no longer closes the connection")
 		c.Check(hasDrain, lit, "drain", lit.Pos(), "the transition drains the sent table", "the failure transition no longer fails the sent calls")
+		if drain != nil {
+			e := mustPass(lit, func(x ssa.Instruction) bool { return x == drain }, nil)
+			c.Check(e == nil, lit, "drain-on-every-path", lit.Pos(), "every path through the transition reaches the drain", "the failure transition can return without failing the sent calls (e.g. when closing the socket reports an error): failOnce makes that permanent, the requests in flight are never completed: "+c.BlockPath(e))
+		}
 		for _, s := range callersOf(p, kit.M("region", "*client", "failSentRPCs")) {
 			c.Check(s.Parent() == lit, s.Parent(), "caller-of-failSentRPCs", s.Pos(), "called from the once-guarded transition only", "failSentRPCs called outside the once-guarded transition")
 		}
